@@ -349,3 +349,70 @@ theorem actionsLoop_errs : ∀ (names : List String) (st : LoopState),
     · rw [a2, e2, List.filter_cons]
       split <;> rfl
 end
+
+/-- **what acceptance demands of every assignment**: its target has a width, the width checker accepts its expression,
+    and the two widths are compatible -/
+theorem assignmentsToActions_rules (fl : Flags) (o : Orders) (assignments : AMap Ex) (widths : AMap Width)
+    (known : List String) (fixed : List FixedFunction) (declared : List String) (constants : AMap WireValue)
+    (acts : List Action) (ho : OrdersOK o) (ht : FixedTableOK fixed) (hk : assignments.keys.Nodup)
+    (h : assignmentsToActions fl o assignments widths known fixed declared constants = .ok acts) :
+    ∀ n e, assignments.get? n = some e → ∃ w ew, widths.get? n = some w ∧
+      check fl widths.toCtx constants.toEnv e = .ok ew ∧ (w.combine ew).isSome = true := by
+  unfold assignmentsToActions at h
+  simp only at h
+  obtain ⟨g0wf, g0nodes, g0edges⟩ := assignGraph_spec assignments known hk
+  generalize hg0 : assignGraph assignments known = g0 at h g0wf g0nodes g0edges
+  generalize hpre : fixed.foldl (preprocessOne fl widths constants assignments known) { graph := g0 } = pre at h
+  by_cases hpe : pre.errors.isEmpty = true
+  · have hpe' : pre.errors = [] := by simpa using hpe
+    simp only [hpe, Bool.not_true, Bool.false_eq_true, if_false] at h
+    have hg0c : ∀ e ∈ g0.edges, assignments.contains e.2 = true := by
+      intro e he
+      obtain ⟨ex, hm, _⟩ := (g0edges e.1 e.2).mp he
+      exact (AMap.contains_iff_mem_keys _ _).mpr (List.mem_map.mpr ⟨(e.2, ex), hm, rfl⟩)
+    have hinit : PreFacts assignments known g0 [] ({ graph := g0 } : PreState) :=
+      { noOut := by intro f hf; simp at hf
+        byKeys := by simp [AMap.keys]
+        byOut := by intro n f hf; simp at hf
+        wf := g0wf
+        nodes := fun n hn => hn
+        edges := fun e he => Or.inl he
+        noOutSub := List.Sublist.refl _
+        edgesG0 := fun e he => he
+        edgesFixed := by intro n f hf; simp at hf }
+    have hpf := preprocess_fold_facts fl widths constants assignments known fixed ht g0 hg0c fixed [] _ (by simp) hinit
+      (by rw [hpre]; exact hpe')
+    rw [hpre] at hpf
+    rcases pre.graph.sort_spec o hpf.wf ho with ⟨order, hso, _, hcover, _⟩ | ⟨c, hsc, _⟩
+    · rw [hso] at h
+      simp only at h
+      have hclean : (actionsLoop fl assignments widths declared constants pre.info.byOutput order { covered := known }).Clean := by
+        generalize actionsLoop fl assignments widths declared constants pre.info.byOutput order { covered := known } = st at h
+        split at h
+        · rename_i herr
+          have : st.errors ++ st.seenUndeclared.map (fun n => (⟨.UnsetUndeclaredWire, [n]⟩ : Diag)) = [] := by simpa using herr
+          rw [List.append_eq_nil_iff] at this
+          exact ⟨this.1, by simpa using this.2⟩
+        · simp at h
+      have hok := actionsLoop_nameOK fl assignments widths declared constants pre.info.byOutput order _ hclean
+      intro n e hne
+      have hn : n ∈ order := by
+        rw [hcover]
+        exact hpf.nodes n (g0nodes n (List.mem_map.mpr ⟨(n, e), AMap.mem_of_get? _ _ _ hne, rfl⟩))
+      have := hok n hn
+      unfold nameOK at this
+      rw [hne] at this
+      simp only at this
+      cases hw : widths.get? n with
+      | none => rw [hw] at this; cases this
+      | some w =>
+        rw [hw] at this
+        simp only at this
+        cases hc : check fl widths.toCtx constants.toEnv e with
+        | error ds => rw [hc] at this; cases this
+        | ok ew =>
+          rw [hc] at this
+          exact ⟨w, ew, rfl, rfl, this⟩
+    · rw [hsc] at h; simp at h
+  · simp only [hpe] at h
+    simp at h
